@@ -29,6 +29,7 @@ type foConfig struct {
 	BackendTTL      time.Duration
 	Observe         bool
 	SliceVals       bool // interface API only: values are of a type that == cannot compare (a slice holding the token)
+	ForeignExpired  bool // FailoverOf only: the user-supplied typed backend adapts an untyped store and passes its (non-generic) expired-item error through, the item being of another type
 	BareExpired     bool // the (user-supplied) backend reports expiry as the bare ErrExpired sentinel, without the stale item
 }
 
@@ -43,6 +44,9 @@ func (c foConfig) String() string {
 	if c.SliceVals {
 		s += "/slice-values"
 	}
+	if c.ForeignExpired {
+		s += "/foreign-expired"
+	}
 	if c.Observe {
 		s += "/observe"
 	}
@@ -53,6 +57,7 @@ type buildErr struct {
 	Key int
 	N   int64
 	Ctx bool // the builder failed with (a wrapped) context.Canceled, as builders calling remote services do
+	NF  bool // the builder failed with an error wrapping cache.ErrNotFound ("no such record in the source")
 }
 
 func (e *buildErr) Error() string { return fmt.Sprintf("build error key=%d n=%d", e.Key, e.N) }
@@ -60,6 +65,9 @@ func (e *buildErr) Error() string { return fmt.Sprintf("build error key=%d n=%d"
 func (e *buildErr) Unwrap() error {
 	if e.Ctx {
 		return context.Canceled
+	}
+	if e.NF {
+		return cache.ErrNotFound
 	}
 	return nil
 }
@@ -110,6 +118,7 @@ type buildOutcome struct {
 	Nil    bool          // successful outcome with a nil / zero value (only used by C01, which does not judge values)
 	Same   bool          // successful outcome equal to the value pre-populated for the key (data source unchanged)
 	CtxErr bool          // failing outcome wraps context.Canceled
+	NotFound bool        // failing outcome wraps cache.ErrNotFound
 	Sleep  time.Duration // the builder takes this long (real time) - for UpdateTTL-related windows
 	TTLs   []ttlUpd
 }
@@ -163,6 +172,8 @@ type foRun struct {
 	holdMax   time.Duration // free mode: builder holds its slot this long (random up to)
 	prepop    map[int]string
 	t0        time.Time
+	hostileAt int64 // >0: at this logger call-out (counted per run) somebody else calls ExpireAll on the backend
+	calloutN  int64
 	gateBG    chan struct{} // optional: background builders wait here (non-steered scenario tests)
 	bgEntered chan int
 }
@@ -280,6 +291,13 @@ func (r *foRun) beRead(ctx context.Context, key []byte) (interface{}, error) {
 		r.sched.yield(ctx, "be.read.post")
 		return nil, cache.ErrExpired
 	}
+	if r.cfg.ForeignExpired && err != nil && errors.Is(err, cache.ErrExpired) {
+		_, at, _ := be.Expired(err)
+		ev.ErrKind, ev.Err, ev.Note = "expired", err.Error(), "foreign-expired-item"
+		r.record(ev)
+		r.sched.yield(ctx, "be.read.post")
+		return nil, foreignExpired{at: at}
+	}
 	if s, ok := tokOf(v); ok {
 		ev.Val = s
 	}
@@ -337,6 +355,14 @@ func ctxErrStr(ctx context.Context) string {
 	return ""
 }
 
+// foreignExpired is an expired-item error of the non-generic kind whose item is not a string.
+type foreignExpired struct{ at time.Time }
+
+func (e foreignExpired) Error() string        { return cache.ErrExpired.Error() }
+func (e foreignExpired) Is(target error) bool { return target == cache.ErrExpired } //nolint:errorlint
+func (e foreignExpired) Value() interface{}   { return 12345 }
+func (e foreignExpired) ExpiredAt() time.Time { return e.at }
+
 type faultRW struct{ r *foRun }
 
 func (w faultRW) Read(ctx context.Context, key []byte) (interface{}, error) {
@@ -362,8 +388,21 @@ func (w faultRWOf) Write(ctx context.Context, key []byte, v string) error {
 
 // ---- logger and stats call-outs
 
+// hostile: logger call-outs run outside the library's critical sections; at the chosen one a concurrent ExpireAll of the
+// backend takes effect (an operator flushing the cache while a Get is in progress).
+func (r *foRun) hostile() {
+	if r.hostileAt <= 0 || atomic.AddInt64(&r.calloutN, 1) != r.hostileAt {
+		return
+	}
+	if be := r.be; be != nil {
+		be.ExpireAll(bg)
+		r.record(foEvent{Kind: "hostile.expireall", Key: -1})
+	}
+}
+
 func (r *foRun) logFn(level string) func(ctx context.Context, msg string, kv ...interface{}) {
 	return func(ctx context.Context, msg string, kv ...interface{}) {
+		r.hostile()
 		if !foYieldMsgs[msg] {
 			// reads of the failure cache log outside any lock: a yield point right after the failure-cache lookup
 			if msg == "cache miss" || msg == "cache hit" || msg == "cache key expired" {
@@ -646,7 +685,7 @@ func (r *foRun) makeBuilder(getID, key int, callerGID int64) func(ctx context.Co
 			tok = fmt.Sprintf("k%d/b/%d", key, n)
 			ex.Val = tok
 		} else {
-			err = &buildErr{Key: key, N: n, Ctx: out.CtxErr}
+			err = &buildErr{Key: key, N: n, Ctx: out.CtxErr, NF: out.NotFound && !out.CtxErr}
 			ex.ErrKind, ex.ErrKey, ex.ErrN = "build", key, n
 		}
 		r.mu.Lock()
